@@ -906,8 +906,12 @@ class Gen:
         self.structs = []
 
     # -- helpers for the random source
+    def u(self):
+        """uniform in [0, 1) with 8 bits of resolution: one byte of the Hypothesis entropy budget per decision"""
+        return self.r.randint(0, 255) / 256.0
+
     def p(self, x):
-        return self.r.random() < x
+        return self.u() < x
 
     def pick(self, xs):
         return xs[self.r.randint(0, len(xs) - 1)]
@@ -998,7 +1002,7 @@ class Gen:
         """want: 'int' (integer typed), 'num' (integer or double), 'dbl'"""
         r = self.r
         for _ in range(6):
-            c = r.random()
+            c = self.u()
             if c < 0.45:
                 vs = [v for v in scope if v["kind"] == "scalar" and v["name"] not in self.locked and
                       (v["t"] != "double" if want == "int" else (v["t"] == "double" if want == "dbl" else True))]
@@ -1023,7 +1027,7 @@ class Gen:
                     v = self.pick(vs)
                     self.feat.add("subscript")
                     n = v["n"]
-                    form = r.random()
+                    form = self.u()
                     if v["kind"] != "str" and form < 0.2:
                         self.feat.add("deref")
                         return ["deref", v["name"], None if self.p(0.5) else self.small_index(scope, n)]
@@ -1052,7 +1056,7 @@ class Gen:
 
     def small_index(self, scope, n):
         """index expression that is (mostly) within [0, n)"""
-        c = self.r.random()
+        c = self.u()
         if c < 0.5 or n <= 1:
             return self.int_lit(0, max(0, n - 1), "int")
         vs = [v for v in scope if v["kind"] == "scalar" and v["t"] in ("int", "uint", "long") and v["name"] not in self.locked]
@@ -1069,7 +1073,7 @@ class Gen:
     def sizeof_expr(self, scope):
         self.feat.add("sizeof")
         vs = [v for v in scope if v["kind"] in ("scalar", "arr", "ptr")]
-        c = self.r.random()
+        c = self.u()
         if vs and c < 0.6:
             v = self.pick(vs)
             if "sizeof-paren" in self.avoid:
@@ -1099,9 +1103,9 @@ class Gen:
 
     def expr(self, scope, want="int", depth=3):
         r = self.r
-        if depth <= 0 or r.random() < 0.18:
+        if depth <= 0 or self.u() < 0.18:
             return self.maybe_par(self.leaf(scope, want), 0.06)
-        c = r.random()
+        c = self.u()
         sub = lambda w=want, d=depth - 1: self.expr(scope, w, d)
         if want == "dbl":
             if c < 0.6:
@@ -1126,7 +1130,7 @@ class Gen:
             e = ["bin", op, sub(), sub()]
         elif c < 0.38:
             op = self.pick(["/", "%"])
-            d = r.random()
+            d = self.u()
             w = "int"
             if d < 0.5:
                 b = self.int_lit(1, 9)
@@ -1172,7 +1176,7 @@ class Gen:
         return self.maybe_par(e)
 
     def cond(self, scope, depth):
-        c = self.r.random()
+        c = self.u()
         if c < 0.6:
             op = self.pick(["<", "<=", ">", ">=", "==", "!="])
             return ["bin", op, self.expr(scope, "num", depth), self.expr(scope, "num", depth)]
@@ -1193,7 +1197,7 @@ class Gen:
         v = self.pick(vs)
         self.locked.add(v["name"])
         self.feat.add("embedded-side-effect")
-        c = self.r.random()
+        c = self.u()
         if c < 0.3:
             return ["post", self.pick(["++", "--"]), ["var", v["name"]]]
         if c < 0.5:
@@ -1252,7 +1256,7 @@ class Gen:
     def typed_int(self, scope, t):
         """an expression whose static type is exactly t (no narrowing inside braces)"""
         vs = [v for v in scope if v["kind"] == "scalar" and v["t"] == t]
-        c = self.r.random()
+        c = self.u()
         lit = lambda: self.int_lit(0, 9, t)
         if t == "int":
             lit = lambda: self.pick([self.int_lit(0, 20, "int"), self.chr_lit()])
@@ -1272,7 +1276,7 @@ class Gen:
         nm = self.fresh("p")
         if arrs and self.p(0.75):
             a = self.pick(arrs)
-            c = self.r.random()
+            c = self.u()
             k = self.r.randint(0, a["n"] - 1)
             if c < 0.4:
                 tg, off = ["arrbase", a["name"], None], 0
@@ -1321,7 +1325,7 @@ class Gen:
         if lv is None:
             return None
         e, t = lv
-        c = self.r.random()
+        c = self.u()
         if c < 0.15 and t != "double":
             self.feat.add("incdec")
             return ["expr", [self.pick(["pre", "post"]), self.pick(["++", "--"]), e]]
@@ -1356,7 +1360,7 @@ class Gen:
     def acc_stmt(self, scope):
         """fold a value into the result accumulator r (long)"""
         self.reads, self.locked = {"r"}, set()
-        c = self.r.random()
+        c = self.u()
         if c < 0.25:
             e = self.expr(scope, "dbl", 2)
             inner = ["call", "h_fold", [e]]
@@ -1389,7 +1393,7 @@ class Gen:
     def statement(self, scope, depth, in_loop=False, in_switch=False, nested=False):
         """-> (stmt, new scope entries)"""
         r = self.r
-        c = r.random()
+        c = self.u()
         if depth <= 0:
             c = c * 0.55
         if c < 0.20:
@@ -1468,7 +1472,7 @@ class Gen:
         self.feat.add("for")
         i = self.fresh("i")
         n = self.r.randint(1, 5)
-        c = self.r.random()
+        c = self.u()
         it = self.pick(["int", "int", "long", "uint"])
         iv = {"name": i, "kind": "scalar", "t": it, "const": True}      # const: the body must not assign it
         sp = self.pick(self.spell[it])
@@ -1513,7 +1517,7 @@ class Gen:
         lit = lambda v: self.int_lit(v, v, "int")
         var = ["var", w]
         decl = ["decl", "", "int", "int", [[w, lit(0)]]]
-        c = self.r.random()
+        c = self.u()
         if c < 0.5:
             self.feat.add("while")
             if self.p(0.5):
@@ -1789,7 +1793,7 @@ def program(r, avoid=(), nstmts=(4, 9)):
             break
     # final fold of the scalar locals, then return
     for v in scope:
-        if v["kind"] == "scalar" and v["name"] not in ("r",) and v not in gscope and r.random() < 0.5:
+        if v["kind"] == "scalar" and v["name"] not in ("r",) and v not in gscope and g.u() < 0.5:
             if v["t"] == "double":
                 inner = ["call", "h_fold", [["var", v["name"]]]]
             else:
